@@ -1426,9 +1426,15 @@ class Session:
     def on_smp_pairing_request_command(
         self, command: SMP_Pairing_Request_Command
     ) -> None:
-        self.connection.cancel_on_disconnection(
-            self.on_smp_pairing_request_command_async(command)
-        )
+        async def handle_request() -> None:
+            # Like for the other commands, a failure fails the pairing on both sides
+            try:
+                await self.on_smp_pairing_request_command_async(command)
+            except Exception:
+                logger.exception(color("!!! Exception in handler:", "red"))
+                self.send_pairing_failed(ErrorCode.UNSPECIFIED_REASON)
+
+        self.connection.cancel_on_disconnection(handle_request())
 
     async def on_smp_pairing_request_command_async(
         self, command: SMP_Pairing_Request_Command
